@@ -374,14 +374,15 @@ STMT_SOURCES = [
     "x = 7000\nif c:\n    x = 7000\n    if d:\n        x = 7001\n", "class A:\n    x = 7000\n    y = 7001\n",
     "try:\n    x = 7000\n    x = 7001\nexcept E:\n    x = 7000\n    x = 7001\nfinally:\n    x = 7000\n    x = 7001\n",
     "x = y = 7000\n", "x += 7000\n", "return_ = 7000 + 7001\n", "import a\nx = 7000\n", "x = 7000; y = 7001\n",
-    "x = 1\ny = True\n", "if c:\n    x = 0\n    y = 0.0\nelse:\n    x = 1\n    y = 1\n", "f(1)\nf(1.0)\nf(True)\nf(1)\n",
+    "def f():\n    return\n", "async def f():\n    async with a as b:\n        x = 7000\n        y = 7001\n    async for i in r:\n        x = 7000\n        y = 7001\n",
+    "def f():\n    return 7000\n", "x = 1\ny = True\n", "if c:\n    x = 0\n    y = 0.0\nelse:\n    x = 1\n    y = 1\n", "f(1)\nf(1.0)\nf(True)\nf(1)\n",
 ]
 STMT_PATTERNS = [
     "x = 7000", "x = W_v", "W_t = W_v", "W_t = 7000", "x = W_v\ny = W_v", "W_t = W_v\nW_u = W_v", "W_t = W_v\nW_t = W_w",
     "W_s\nW_s", "W_s\nW_t", "f(W_x)", "f(W_x)\nf(W_y)", "W_f(W_x)\nW_f(W_y)", "x = W_v\nANYS\nz = W_w",
     "y = W_v\ny = W_w", "x = W_v\nx = W_v", "if W_c:\n    W_a\n    W_b\nelse:\n    W_b\n    W_a",
     "if W_c:\n    WS_a\nelse:\n    WS_b", "def W_f(W_a):\n    WS_body", "for W_i in W_r:\n    WP_body", "x += W_v",
-    "x = y = W_v", "return_ = W_a + W_b", "W_t = W_v\nANYQ\nW_u = W_v",
+    "x = y = W_v", "return_ = W_a + W_b", "W_t = W_v\nANYQ\nW_u = W_v", "return W_x", "return",
 ]
 
 
